@@ -283,6 +283,37 @@ func slice(x, lo, hi, max value) value {
 		Cap = cap(a)
 	}
 
+	// symbolic bounds: decide the run-time check once, then enumerate only in-range values
+	if isSym(lo) || isSym(hi) || isSym(max) {
+		t64 := func(v value, def int64) *Term {
+			if v == nil {
+				return mkBV(64, uint64(def))
+			}
+			if s, ok := v.(sv); ok {
+				w, signed := kindInfo(s.k)
+				if w == 64 {
+					return s.t
+				}
+				if signed {
+					return mkSext(64, s.t)
+				}
+				return mkZext(64, s.t)
+			}
+			return mkBV(64, uint64(asInt64(v)))
+		}
+		upper := int64(Cap)
+		if _, isStr := x.(string); isStr {
+			upper = int64(Len)
+		}
+		if _, isStr := x.(symstr); isStr {
+			upper = int64(Len)
+		}
+		tl, th, tm := t64(lo, 0), t64(hi, int64(Len)), t64(max, upper)
+		ok := mkAnd(mkCmp(opSle, mkBV(64, 0), tl), mkAnd(mkCmp(opSle, tl, th), mkAnd(mkCmp(opSle, th, tm), mkCmp(opSle, tm, mkBV(64, uint64(upper))))))
+		if !decide(ok) {
+			panic(targetPanicStr("runtime error: slice bounds out of range [symbolic]"))
+		}
+	}
 	l := int64(0)
 	if lo != nil {
 		l = asInt64(lo)
